@@ -56,10 +56,13 @@ def r_C32(root):
                 for ret in ("result", None):
                     log = []
                     table = {key: pyeval.Callee("registered:" + key, log, ret) for key in reg}
-                    env = {"%s.__class__.__name__" % R_obj: "Cls", "type(%s).__name__" % R_obj: "Cls", "%s.name" % R_attr: "attr", R_obj: {".kind": "obj"}, R_attr: {".name": "attr"}, R_ref: {".kind": "ref"},
-                           "%s.scope_provider" % R_ref: pyeval.Callee("attached", log, ret) if attached else None,
+                    att_ = pyeval.Callee("attached", log, ret) if attached else None
+                    env = {"%s.__class__.__name__" % R_obj: "Cls", "type(%s).__name__" % R_obj: "Cls", "%s.name" % R_attr: "attr", R_obj: {".kind": "obj", ".__class__": {".__name__": "Cls"}}, R_attr: {".name": "attr"}, R_ref: {".kind": "ref", ".scope_provider": att_},
+                           "metamodel": {".scope_providers": table, ".debug": False, ".builtins": {}},
+                           "%s.scope_provider" % R_ref: att_,
                            "metamodel.scope_providers": table, "self.parser.metamodel.scope_providers": table, "default_scope": pyeval.Callee("default", log, ret),
-                           "self.parser.debug": False, "self.debug": False, "metamodel.debug": False}
+                           "self.parser.debug": False, "self.debug": False, "metamodel.debug": False,
+                           "__functions__": {f_.name: f_ for f_ in ast.walk(t) if isinstance(f_, ast.FunctionDef) and f_.name.startswith("_") and not f_.name.startswith("__")}}
                     # locals computed before the fragment (e.g. a hoisted class-name variable): bound from their single definition
                     assigned = {x.id for st_ in frag for x in ast.walk(st_) if isinstance(x, ast.Name) and isinstance(x.ctx, ast.Store)}
                     for x in [x for st_ in frag for x in ast.walk(st_) if isinstance(x, ast.Name) and isinstance(x.ctx, ast.Load)]:
